@@ -457,7 +457,15 @@ pub fn run_c20(cfg: &Cfg) {
     // seeded random long sequences over 3 slots and 3 values, with pops interleaved with atomics
     let mut r = Rng(cfg.seed ^ 0xc20);
     let nrand = if thorough { 200000 } else { 30000 };
-    for _ in 0..nrand {
+    let mut wide_from = usize::MAX;
+    for it in 0..nrand {
+        // every tenth sequence uses a wide slot vector with slot numbers that alias under any
+        // power-of-two-wide mask or table (a bit set kept in a machine word instead of a real set)
+        let wide = it % 10 == 9;
+        if wide && wide_from == usize::MAX {
+            wide_from = seqs.len();
+        }
+        let wide_slots = [0usize, 64, 128, 1, 65, 129, 32, 96, 16, 8, 136, 72];
         let n = 8 + r.below(24);
         let mut q = Vec::new();
         let mut stack = 0usize;
@@ -476,7 +484,7 @@ pub fn run_c20(cfg: &Cfg) {
                     aux = snaps.pop().unwrap();
                     stack -= 1;
                 }
-                5 | 6 | 7 | 8 => q.push(format!("S:{}:{}", r.below(3), 1 + r.below(3))),
+                5 | 6 | 7 | 8 => q.push(format!("S:{}:{}", if wide { *r.pick(&wide_slots) } else { r.below(3) }, 1 + r.below(3))),
                 9 => {
                     q.push("B".to_string());
                     aux.push(stack);
@@ -492,8 +500,11 @@ pub fn run_c20(cfg: &Cfg) {
                     q.push(format!("U:{}", v));
                     aux.push(v);
                 }
-                _ => q.push(format!("G:{}", r.below(3))),
+                _ => q.push(format!("G:{}", if wide { *r.pick(&wide_slots) } else { r.below(3) })),
             }
+        }
+        if wide {
+            q.insert(0, "W".to_string());
         }
         seqs.push(q);
     }
@@ -503,7 +514,10 @@ pub fn run_c20(cfg: &Cfg) {
         }
         s.count("sequences");
         s.add("operations", q.len() as u64);
-        let nsaves = 3;
+        let wide = q.first().map(|x| x == "W").unwrap_or(false);
+        let q: Vec<String> = if wide { q[1..].to_vec() } else { q.clone() };
+        let q = &q;
+        let nsaves = if wide { 140 } else { 3 };
         let (ans, mismatch) = run_state_ops(nsaves, q);
         if let Some(m) = mismatch {
             s.violation("C20", "whole-copy-reference", &[("ops", q.join(" ")), ("detail", m)]);
